@@ -199,6 +199,58 @@ pub fn scenarios() -> Vec<Sc> {
         may_block: nobody(),
     });
 
+    // ---- Wakers::combine_with: many tasks share one readiness source -----------------------
+    // (how every path's poll_send / poll_recv reaches the UDP socket in qinterface::io::handy)
+    for (name, two) in [("wakers/combine_with-vs-source-ready", false), ("wakers/combine_with-two-tasks-vs-source-ready", true)] {
+        v.push(Sc {
+            name,
+            build: Box::new(move || {
+                use qbase::util::Wakers;
+                /// a one-shot readiness source, like an IO driver registration
+                #[derive(Default)]
+                struct Source {
+                    ready: AtomicBool,
+                    waker: Mutex<Option<std::task::Waker>>,
+                }
+                let obs = Arc::new(Obs::default());
+                let src = Arc::new(Source::default());
+                let wakers: Arc<Wakers> = Arc::new(Wakers::new());
+                let mut t: Vec<(String, Body)> = Vec::new();
+                for i in 0..(if two { 2 } else { 1 }) {
+                    let (src, wakers, o) = (src.clone(), wakers.clone(), obs.clone());
+                    t.push((format!("task{i}"), body(move |c| {
+                        c.block_on("combine_with", |cx| {
+                            wakers.combine_with(cx, |inner| {
+                                if src.ready.load(Ordering::SeqCst) {
+                                    return std::task::Poll::Ready(());
+                                }
+                                *src.waker.lock().unwrap() = Some(inner.waker().clone());
+                                // the source may fire at any moment after the registration,
+                                // in particular before combine_with has returned
+                                // (an edge-triggered source: it does not check again before returning)
+                                c.point("inner-poll:registered-with-source");
+                                std::task::Poll::Pending
+                            })
+                        });
+                        o.set(&format!("task{i}"), "ready");
+                    })));
+                }
+                let src2 = src.clone();
+                t.push(("driver".into(), body(move |c| {
+                    c.point("source-becomes-ready");
+                    src2.ready.store(true, Ordering::SeqCst);
+                    let w = src2.waker.lock().unwrap().take();
+                    if let Some(w) = w {
+                        w.wake();
+                    }
+                })));
+                (obs, t)
+            }),
+            expect: expect_eq("task0", &["ready"]),
+            may_block: nobody(),
+        });
+    }
+
     // ---- AsyncDeque -------------------------------------------------------------------
     for (name, close_too) in [("asyncdeque/pop-vs-push", false), ("asyncdeque/pop-vs-push-and-close", true)] {
         v.push(Sc {
